@@ -151,7 +151,15 @@ def gen_hsic_est(rng, tier):
     # outputs: dyadic, median non-zero by construction (all values >= 1/8 or all <= -1/8)
     sign = rng.choice([1, 1, -1])
     outputs = [sign * rng.randint(1, 40) / 8 for _ in range(n)]
-    return dict(kind="hsic_est", est=est, g=g, n=n, masks=masks, outputs=outputs, ebs=ebs_choice(rng, d))
+    case = dict(kind="hsic_est", est=est, g=g, n=n, masks=masks, outputs=outputs, ebs=ebs_choice(rng, d))
+    if rng.random() < 0.5:
+        # history: the same estimator object and the same masks ARRAY were used before, with other content
+        if est == "Binary":
+            case["warm_masks"] = [[float(rng.randint(0, 1)) for _ in range(d)] for _ in range(n)]
+        else:
+            case["warm_masks"] = [[rng.randint(0, 16) / 16 for _ in range(d)] for _ in range(n)]
+        case["warm_outputs"] = [rng.randint(1, 40) / 8 for _ in range(n)]
+    return case
 
 
 def gen_image(rng):
@@ -212,7 +220,9 @@ def gen_hsic_expl(rng, tier):
         if not any(t):
             t[0] = 1.0
         ts.append(t)
-    return dict(kind="hsic_expl", shape=[h, w, c], g=g, n=n, sampler=rng.choice(PLAIN_SAMPLERS), binary=binary,
+    sampler = rng.choice(PLAIN_SAMPLERS)
+    decoy = rng.choice([s for s in PLAIN_SAMPLERS if s != sampler]) if rng.random() < 0.5 else None
+    return dict(kind="hsic_expl", shape=[h, w, c], g=g, n=n, sampler=sampler, binary=binary, decoy=decoy,
                 est=est, pert=rng.choice(["inpainting", "inpainting", "blurring"]),
                 params=gen_pos_fquad(rng, ncls, dim),
                 xs=[[rng.randint(0, 16) / 8 for _ in range(dim)] for _ in range(nin)], ts=ts,
@@ -352,6 +362,12 @@ def run_design(case):
     gsa = _gsa()
     d, n = case["d"], case["n"]
     if case["rs"]:
+        first = getattr(gsa, case["sampler"])()(d, n)
+        if isinstance(first, np.ndarray) and first.flags.writeable:
+            # history: the caller post-processes the returned array IN PLACE (as the repository's own Ishigami test does);
+            # a later request of the same design must still return a fresh [0,1] replicated design
+            first *= 2.0 * np.pi
+            first -= np.pi
         out = getattr(gsa, case["sampler"])()(d, n)
         out = np.asarray(out)
         draw = library_draw(case["sampler"], 2 * d, n)
@@ -406,7 +422,12 @@ def run_hsic_est(case):
     g, n = case["g"], case["n"]
     est = make_hsic_estimator(case["est"])
     est.set_batch_size(case["ebs"])
-    masks = np.array(case["masks"], np.float32).reshape(n, g, g, 1)
+    if case.get("warm_masks"):
+        masks = np.array(case["warm_masks"], np.float32).reshape(n, g, g, 1)
+        est(masks, np.array(case["warm_outputs"], np.float64), n)
+        masks[...] = np.array(case["masks"], np.float32).reshape(n, g, g, 1)     # re-drawn in place: same id, same shape
+    else:
+        masks = np.array(case["masks"], np.float32).reshape(n, g, g, 1)
     out = est(masks, np.array(case["outputs"], np.float64), n)
     res = dict(values=f2l(out), shape=list(np.asarray(out).shape))
     res.update(hsic_tables(case, case["masks"], [case["outputs"]]))
@@ -464,9 +485,19 @@ def run_expl(case):
                                           batch_size=case["bs"])
         total = n * (g * g + 2)
     else:
+        shared = make_hsic_estimator(case["est"])
+        if case.get("decoy") and shared is not None:
+            # history: ONE estimator object serves two explainers (same grid, same nb_design, another sampler);
+            # the decoy explains first.  Each explainer's map must still be the estimator on ITS OWN masks.
+            decoy = gsa.HsicAttributionMethod(plain, grid_size=g, nb_design=n,
+                                              sampler=getattr(gsa, case["decoy"])(binary=case["binary"]),
+                                              estimator=shared, perturbation_function=perturbation_arg(case),
+                                              batch_size=case["bs"], estimator_batch_size=case["ebs"])
+            decoy.explain(np.array(case["xs"], np.float32).reshape(len(case["xs"]), h, w, c),
+                          np.array(case["ts"], np.float32))
         expl = gsa.HsicAttributionMethod(model, grid_size=g, nb_design=n,
                                          sampler=getattr(gsa, case["sampler"])(binary=case["binary"]),
-                                         estimator=make_hsic_estimator(case["est"]),
+                                         estimator=shared,
                                          perturbation_function=perturbation_arg(case), batch_size=case["bs"],
                                          estimator_batch_size=case["ebs"])
         total = n
